@@ -257,7 +257,19 @@ def judge(ctx, case, ra, rb, hashseeds, facts=None, funcmap=None):
                           case=rcase, signature=dict(sig, defect="global_generator_consumed",
                                                      generator=sorted(set(b for _, b in r["consumed"]))[0]))
             break
-    if ra.get(key) != rb.get(key) or ra.get("error") != rb.get("error"):
+    changed = [(tw, r["caller_list_changed"]) for r, tw in ((ra, "A"), (rb, "B")) if r.get("caller_list_changed")]
+    differs = ra.get(key) != rb.get(key) or ra.get("error") != rb.get("error")
+    if changed:
+        # shape of finding F-C11-1: the restrict_configurations list handed in by the caller was modified
+        shared = bool(ra.get("shared_restrict") or rb.get("shared_restrict"))
+        ctx.violation("property",
+                      "the caller's restrict_configurations list was modified by a seeded %s (length %s -> %s in twin %s)%s%s"
+                      % (sig, changed[0][1][0], changed[0][1][1], changed[0][0],
+                         "; the same list object is held by unrelated instances" if shared else "",
+                         "; twin outcomes differ" if differs else ""),
+                      case=rcase, signature=dict(sig, check="unrelated_instance", shared="restrict_configurations"))
+        differs = False     # reported with the structural signature above
+    if differs:
         if case["kind"] == "sim":
             cols = [c for (c, v), (_, w) in zip(ra.get("table") or [], rb.get("table") or []) if v != w]
             what = "twin simulated experiments differ in columns %s (errors %r / %r)" % (cols[:6], ra.get("error"), rb.get("error"))
@@ -290,6 +302,8 @@ def judge(ctx, case, ra, rb, hashseeds, facts=None, funcmap=None):
         if case.get("targeted"):
             ctx.h("targeting", "targeted_cases_judged")
         ctx.h("options", "unrelated instances with explicit nested options: %d" % len(case.get("polluters") or []))
+        if ra.get("shared_restrict"):
+            ctx.h("options", "restrict_configurations list object shared with unrelated instances")
         if case.get("loss_profile"):
             ctx.h("options", "loss profile separating ASHA from RUSH")
         ctx.h("trace_len", min(len(tr) // 20 * 20, 120))
